@@ -16,7 +16,8 @@
                            ('/', and '\' only when b's scheme is special)
      abs_shape txt         txt starts with a non-special scheme, or a special scheme followed by >= 2 slashes,
                            or "file:" followed by two slashes  (decided on the text)
-     mr_ok b t             the positive domain of the make_relative inverse law (Model/KnownC08.v)
+     mr_ok b t             the positive domain of the make_relative inverse law (Model/KnownC08.v; excluded classes
+                           3, 41, 42, 43, 45, 46 - see section 6)
      hier_url pre se ue hs he hi po segs last q f
                            the record  pre "/" seg "/" ... "/" last ["?" q]["#" f]  with path_start = |pre| and
                            query_start / fragment_start at the '?' / '#'  (Proofs/C08_RelMr.v)
@@ -469,11 +470,26 @@ Print Assumptions C08_4c_refuted.
 Theorem C08_4d_refuted : mr_witness 3 "a:/x" "a:///x" = true.
 Proof. exact F_C08_4d_refuted. Qed.
 Print Assumptions C08_4d_refuted.
+(* class 45 (narrowed: outside file URLs only the base's directory segments that '..' has to pop count) *)
 Theorem C08_4e_refuted :
   mr_witness 45 "http://h/c:/a" "http://h/b" = true /\ mr_witness 45 "file:///c:/a/b" "file:///d:/x" = true
-  /\ mr_witness 45 "non-spec:/" "non-spec:/c:" = true.
+  /\ mr_witness 45 "non-spec:/c:/a" "non-spec:/b" = true /\ mr_witness 45 "a://h/x/c|/f" "a://h/x/y" = true.
 Proof. exact F_C08_4e_refuted. Qed.
 Print Assumptions C08_4e_refuted.
+(* the former third witness of class 45 is in class 42 now (the reference "c:" reads as a scheme) *)
+Theorem C08_4b_drive_refuted : mr_witness 42 "non-spec:/" "non-spec:/c:" = true.
+Proof. exact F_C08_4b_drive_refuted. Qed.
+Print Assumptions C08_4b_drive_refuted.
+(* ... and the pairs that the narrowing moved INTO MR_ok satisfy the law (covered by C08_relative_parsed): a
+   drive-letter-shaped segment in the common prefix, in the target only, as the base's file name, as a target file
+   name behind a directory *)
+Example C08_drive_inhabited :
+  mr_holds "http://h/c:/a" "http://h/c:/b" "b" = true
+  /\ mr_holds "http://h/a/b" "http://h/c:/d" "../c:/d" = true
+  /\ mr_holds "a://h/a/c:" "a://h/a/x" "x" = true
+  /\ mr_holds "non-spec:/a/b" "non-spec:/a/d/c|" "d/c|" = true
+  /\ mr_holds "ws://h/c:/d:/e" "ws://h/c:/d:/e/f:" "e/f:" = true.
+Proof. exact MR_ok_drive_inhabited. Qed.
 Theorem C08_dots_refuted : match toy_parse "a:/y" with POk b => mr_refutes 46 b t_dots | _ => false end = true.
 Proof. exact class_46_refuted. Qed.
 Print Assumptions C08_dots_refuted.
